@@ -88,6 +88,20 @@ class MWatcher:
         self.onlychanged, self.queued, self.precedence, self.mode, self.script = onlychanged, queued, precedence, mode, script
 
 
+class _Inheriting(dict):
+    """values of a class that inherits its Parameters: a name never assigned on the class itself reads the base's value"""
+
+    def __init__(self, base):
+        dict.__init__(self)
+        self.base = base
+
+    def __getitem__(self, k):
+        return dict.__getitem__(self, k) if dict.__contains__(self, k) else self.base[k]
+
+    def __iter__(self):
+        return iter(self.base)
+
+
 class MObj:
     def __init__(self, oid, values, event_params=()):
         self.oid = oid
@@ -111,6 +125,7 @@ class DispatchModel:
     def __init__(self, host):
         self.host = host
         self.objs = {}
+        self.shared = {}                # oid -> set of the classes sharing one table of class-level watchers
         self.ambiguous = None           # reason string once the program leaves the specified zone
         self.depth = 0                  # callback nesting depth
         self.inflight = []              # stack of sets of (oid, name) being delivered
@@ -124,29 +139,38 @@ class DispatchModel:
     def add_obj(self, oid, values, event_params=()):
         self.objs[oid] = MObj(oid, values, event_params)
 
+    def share_watchers(self, oid, src):
+        """a class that inherits the Parameters of its base has the base's table of class-level watchers: whatever is
+        registered on (or removed from) either class, before or after the inheriting class gets Parameter copies of its
+        own by a class-level assignment, is heard on both"""
+        self.objs[oid].watchers = self.objs[src].watchers
+        # ... and until a name is assigned on the inheriting class itself it reads the value of its base
+        self.objs[oid].values = _Inheriting(self.objs[src].values)
+        group = self.shared.setdefault(src, {src})
+        group.add(oid)
+        self.shared[oid] = group
+
     def inherit_watchers(self, oid, src, name):
-        """a class that copies a Parameter of its base on the first class-level assignment starts with the base's watchers and value"""
-        for key, lst in self.objs[src].watchers.items():
-            if key[0] == name:
-                self.objs[oid].watchers[key] = list(lst)
-        self.objs[oid].values[name] = self.objs[src].values[name]
+        """(nothing to do: see share_watchers)"""
 
     def watch(self, w):
         o = self.objs[w.obj]
-        if self.depth and any((w.obj, p) in s for s in self.inflight for p in w.params):
+        group = self.shared.get(w.obj, (w.obj,))
+        if self.depth and any((g, p) in s for s in self.inflight for p in w.params for g in group):
             self.ambiguous = self.ambiguous or 'watcher registered for a parameter whose event is in flight'
-        if self.depth and any(t[1].name in w.params for t in o.queue):
+        if self.depth and any(t[1].name in w.params for g in group for t in self.objs[g].queue):
             self.ambiguous = self.ambiguous or 'watcher registered for a parameter with a deferred event'
         for p in w.params:
             o.watchers.setdefault((p, w.what), []).append(w)
 
     def unwatch(self, w):
         o = self.objs[w.obj]
+        group = self.shared.get(w.obj, (w.obj,))
         # a watcher that was already called for the event in flight (typically one removing itself) leaves nothing open:
         # every other watcher is still owed its call
-        if self.depth and any((w.obj, p) in s and id(w) not in st for s, st in zip(self.inflight, self.started) for p in w.params):
+        if self.depth and any((g, p) in s and id(w) not in st for s, st in zip(self.inflight, self.started) for p in w.params for g in group):
             self.ambiguous = self.ambiguous or 'watcher removed while an event for its parameter is in flight'
-        if any(t[0] is w or (t[0].wid == w.wid and t[0].obj == w.obj) for t in o.queue):
+        if any(t[0] is w or (t[0].wid == w.wid and t[0].obj == w.obj) for g in group for t in self.objs[g].queue):
             self.ambiguous = self.ambiguous or 'watcher removed while it holds a deferred event'
         for p in w.params:
             lst = o.watchers.get((p, w.what), [])
@@ -214,6 +238,7 @@ class DispatchModel:
         self.exec_counter += 1
         self.exec_id = self.exec_counter
         try:
+            self.cur_src = o.oid        # (a class-level watcher may hear of an assignment on another class of its family)
             self.host.on_enter(w, events, optional)
         finally:
             self.exec_id = saved_id
